@@ -51,7 +51,9 @@ var Texts = []string{"BL", "1.2.3", "sha-256", "TF-M_SHA256MemPreXIP", "ünïcö
 	// names an implementation might be tempted to normalise, things that are not URIs, surrounding white space, trailing NUL
 	"SHA256", "SHA_384", "sha512", "192.0.2.1:8443", "100%", "a b#c%zz", ":", " padded ", "trailing-nul\x00", "\u00a0", "\t", "\ufffd", "a\ufffdb", "\ufeff",
 	// wording of the library's own error sentinels (an error message that quotes the value must not change class)
-	"not in profile", "missing optional", "missing mandatory claim", "wrong syntax"}
+	"not in profile", "missing optional", "missing mandatory claim", "wrong syntax",
+	// text that looks like a lone JSON delimiter token
+	"[", "]", "{", "}", ",", ":"}
 
 // LongTexts: strings whose length in octets and in characters differ widely
 // and straddle 64 / 255 / 256 (code that measures one and cuts by the other
